@@ -162,7 +162,43 @@ fn short(s: &str) -> String {
 /// nothing about (`accept_route_state`: clear, then every feature), then per feature without clearing (what the
 /// insertion loop does for a touched tour), then on solution level to the fixpoint, so that the result does not
 /// depend on the order in which features are listed. Returns the twin and the per-tour digests after the first pass.
+/// Keys of per-tour values which are derived from per-tour state of *another* feature (work balance values are computed
+/// from the total distance / duration / load profile which the transport and capacity features refresh in the same
+/// pass): which value they hold after one pass depends on the order in which the features are listed, by construction.
+/// Found by asking the four public work-balance constructors which key they write on a fresh route.
+fn derived_value_keys(ctx: &InsertionContext) -> std::collections::BTreeSet<String> {
+    use vrp_core::construction::features::*;
+    use vrp_core::models::common::{Load, MultiDimLoad};
+    let mut keys = std::collections::BTreeSet::new();
+    let Some(actor) = ctx.problem.fleet.actors.first().cloned() else { return keys };
+    let features = [
+        create_distance_balanced_feature("probe"),
+        create_duration_balanced_feature("probe"),
+        create_activity_balanced_feature("probe"),
+        create_max_load_balanced_feature::<MultiDimLoad>("probe", |a, b| a.ratio(b), |_| {
+            static ZERO: std::sync::OnceLock<MultiDimLoad> = std::sync::OnceLock::new();
+            ZERO.get_or_init(MultiDimLoad::default)
+        }),
+    ];
+    for feature in features.into_iter().flatten() {
+        if let Some(state) = feature.state.as_ref() {
+            let mut rc = RouteContext::new(actor.clone());
+            let before: std::collections::BTreeSet<String> = rc.state().verif_entries().into_iter().map(|(id, _)| key(&id)).collect();
+            state.accept_route_state(&mut rc);
+            for (id, _) in rc.state().verif_entries() {
+                if !before.contains(&key(&id)) {
+                    keys.insert(key(&id));
+                }
+            }
+        }
+    }
+    keys
+}
+
 fn recompute(ctx: &InsertionContext, stats: &mut CacheStats) -> (InsertionContext, Vec<BTreeMap<String, String>>) {
+    if stats.order_dependent_keys.is_empty() {
+        stats.order_dependent_keys = derived_value_keys(ctx);
+    }
     let mut twin = ctx.deep_copy();
     let goal = ctx.problem.goal.clone();
     for rc in twin.solution.routes.iter_mut() {
@@ -261,6 +297,16 @@ pub fn check_handover(ctx: &InsertionContext, stats: &mut CacheStats) -> Vec<(&'
     let fw: Vec<u64> = twin.fitness().map(|x| x.to_bits()).collect();
     stats.fitness_compared += 1;
     if fh != fw {
+        if std::env::var_os("VSIM_DUMP_CACHE").is_some() {
+            let names = |jobs: &mut dyn Iterator<Item = &vrp_core::models::problem::Job>| -> Vec<String> {
+                let mut v: Vec<String> = jobs.map(|j| vrp_core::models::problem::JobIdDimension::get_job_id(j.dimens()).cloned().unwrap_or_default()).collect();
+                v.sort();
+                v
+            };
+            crate::say!("FITNESS-DIFF ctx req={:?} ign={:?} unas={:?}\n             twin req={:?} ign={:?} unas={:?}",
+                names(&mut ctx.solution.required.iter()), names(&mut ctx.solution.ignored.iter()), names(&mut ctx.solution.unassigned.keys()),
+                names(&mut twin.solution.required.iter()), names(&mut twin.solution.ignored.iter()), names(&mut twin.solution.unassigned.keys()));
+        }
         out.push(("fitness-depends-on-cache", format!("fitness {:?} differs from fitness of the recomputed twin {:?}", ctx.fitness().collect::<Vec<_>>(), twin.fitness().collect::<Vec<_>>())));
     }
     out
